@@ -371,6 +371,10 @@ class Determinant(CompoundTensorOperator):
 
     def __init__(self, A):
         """Initialise."""
+        if hasattr(self, "ufl_operands"):
+            # __new__ returned an already initialised scalar Determinant (Determinant(det(A)) -> det(A)):
+            # Python still calls __init__ on it, do not re-initialise the operand
+            return
         CompoundTensorOperator.__init__(self, (A,))
 
     def __str__(self):
